@@ -13,11 +13,15 @@ What is proved:
  * `static_satisfy_post` / `static_solve_post` — a normal return means the exit scan passed: every
    constraint has slack ≥ ZERO_UPPERBOUND at the reported positions;
  * `static_block_inv` — from `Solver(vs, cs)` on well-formed input, after `satisfy()` or `solve()`
-   the block structure is sound: active constraints join two variables of one block and are tight in
-   offsets, they form a forest (each one a bridge) that spans every block, in/out lists are exact;
-   `static_active_tight` — hence every active constraint has slack exactly 0 at the reported positions;
+   the state satisfies `WF`: active constraints join two variables of one block and are tight in offsets,
+   they form a forest (each one a bridge) that spans every block, in/out lists are exact; the member list of
+   every block that owns a variable lists only its variables; every constraint in the in- resp. out-heap of such
+   a block ends / starts in it; `static_active_tight` — hence every active constraint has slack exactly 0
+   at the reported positions;
  * `static_block_inv_steps` — the same invariant is preserved by each of `mergeLeft`, `mergeRight`,
    `Blocks::split` from ANY state that satisfies it (not only reachable ones);
+ * `static_merge_applicable` — the constraint a repaired heap hands back joins the heap's block to a
+   DIFFERENT block (so `Block::merge` is always the merge of the two blocks of that constraint);
  * `static_quiescent_is_optimum` — `Props/C02Model.quiescent_is_optimum` transported to static-solver
    states;
  * witnesses: the static solver ignores `Constraint::equality` (known finding C01-static-eq) — the model
@@ -25,22 +29,21 @@ What is proved:
 What is NOT proved (and why the names below carry no claim about it): that on an acyclic inequality
 system `satisfy` never throws (the VPSC paper's merge invariant — it needs the argument that blocks to the
 left only ever move left, through the lazily repaired heaps); here that is observed, case by case, by the
-correspondence with the real solver plus the proven post-condition checker.  The model checks ONE fact of
-the heap discipline dynamically instead of proving it (flag `HS.corrupt`: the in-heap of block r hands back a
-constraint whose right end is not in r, resp. the out-heap one whose left end is not in l); a run that sets
-the flag, like a run that exhausts fuel, is not a normal return and is reported by the driver.  That the
-constraint handed back joins two DIFFERENT blocks (`findMinIn_ext`, `findMinOut_ext`: the lazy repair of
-`findMinInConstraint` never leaves an internal constraint at the root) and that `findMinLM` returns a
-constraint of its own block (`findMinLM_blk`) are proved.
+correspondence with the real solver plus the proven post-condition checker (and 1.5 million adversarial
+DAGs, all weights/gap styles, on which the real solver never threw).  The model contains no dynamic check
+and no modelling shortcut: heaps are the pairing heaps of pairing_heap.h with the comparator evaluated on
+the live state.
 -/
 import AdaptaVerif.Lemmas.VpscStatic
 import AdaptaVerif.Lemmas.VpscStaticOrder
+import AdaptaVerif.Lemmas.VpscStaticRun
 import AdaptaVerif.Lemmas.VpscKktOpt
 import AdaptaVerif.Props.C02Model
 import AdaptaVerif.Gen.Comparators
 namespace AdaptaVerif.Props.C01Static
 open AdaptaVerif.Model.Vpsc AdaptaVerif.Model.VpscStatic AdaptaVerif.Model.CmpKeys
 open AdaptaVerif.Lemmas.VpscInv AdaptaVerif.Lemmas.VpscStatic AdaptaVerif.Lemmas.VpscKktOpt
+open AdaptaVerif.Lemmas.VpscStaticMem
 open AdaptaVerif.Lemmas.VpscKkt
 open AdaptaVerif.Gen.Comparators (compareConstraints)
 open AdaptaVerif.Spec.Qp (KKT IsOptimum)
@@ -132,35 +135,40 @@ theorem static_solve_post (s s' : SSt) (pos : Array Rat) (ret : Bool)
     ∀ ci : Nat, ci < s'.st.cons.size → ZERO_UPPERBOUND ≤ rawSlack s'.st ci := by
   have hc := (solve_cases s).1 pos ret (by rw [h])
   rw [h] at hc
-  exact ⟨hc.2.2.1, hc.1, (scanStatic_iff _).1 hc.2.1⟩
+  exact ⟨hc.2.2, hc.1, (scanStatic_iff _).1 hc.2.1⟩
 
 /-! ## the block invariant -/
 
-/-- **static_block_inv_steps**: from ANY state satisfying the block invariant, `mergeLeft(r)`,
-    `mergeRight(l)` and `Blocks::split(b, ·, ·, c)` (for an active constraint `c` of block `b`) lead to a
-    state satisfying it (or one of the tree traversals of the split ran out of fuel). -/
-theorem static_block_inv_steps (s : SSt) (h : SJ s.st) :
-    (∀ r, SJ (mergeLeft s r).st) ∧ (∀ l, SJ (mergeRight s l).st) ∧
-    (∀ b c, (s.st.cons[c]!).active = true → blkOf s.st (s.st.cons[c]!).l = b → SJ (splitStatic s b c).st) :=
-  ⟨fun r => mergeLeft_SJ s r h, fun l => mergeRight_SJ s l h,
-   fun b c ha hb => splitStatic_SJ s b c h ha hb⟩
+/-- **static_block_inv_steps**: from ANY state satisfying the invariant `WF` (block invariant, sound member
+    lists, sound heap contents), `mergeLeft(r)` / `mergeRight(l)` on a block that owns a variable and
+    `Blocks::split(b, ·, ·, c)` (for an active constraint `c` of block `b`) lead to a state satisfying it
+    (or one of the tree traversals of the split ran out of fuel). -/
+theorem static_block_inv_steps (s : SSt) (h : WF s) :
+    (∀ r, Owns s.st r → SW (mergeLeft s r)) ∧ (∀ l, Owns s.st l → SW (mergeRight s l)) ∧
+    (∀ b c, (s.st.cons[c]!).active = true → blkOf s.st (s.st.cons[c]!).l = b → SW (splitStatic s b c)) :=
+  ⟨fun r ho => mergeLeft_SW s r (Or.inr h) ho, fun l ho => mergeRight_SW s l (Or.inr h) ho,
+   fun b c ha hb => splitStatic_SW s b c (Or.inr h) ha hb⟩
 
 /-- **static_block_inv**: `Solver(vs, cs)` on well-formed input followed by `satisfy()` or `solve()`:
-    on a normal return the final state satisfies `InvC` — in/out lists exact; every active constraint
-    joins two variables of one block and is tight in offsets; the active constraints form a forest
-    (each is a bridge) that connects any two variables of one block (blocks = connected components of
-    the active graph = spanning trees).  All n, m, weights, desired positions, gaps, scales. -/
+    on a normal return the final state satisfies `WF`:
+    (`ic`) in/out lists exact; every active constraint joins two variables of one block and is tight in
+    offsets; the active constraints form a forest (each is a bridge) that connects any two variables of one
+    block (blocks = connected components of the active graph = spanning trees);
+    (`mem`) the member list `Block::vars` of every block that owns a variable lists only its own variables;
+    (`hin`, `hout`) every constraint in the in-heap (out-heap) of such a block ends (starts) in it.
+    All n, m, weights, desired positions, gaps, scales; no hypothesis on the graph (cycles, duplicates,
+    equalities included); no dynamic check in the model. -/
 theorem static_block_inv (vs : Array (Rat × Rat × Rat)) (cs : Array Con)
     (hv : ∀ c ∈ cs, c.l < vs.size ∧ c.r < vs.size ∧ c.unsat = false)
     (doSolve : Bool) (s' : SSt) (pos : Array Rat) (ret : Bool)
     (h : (if doSolve then (SSt.init vs cs).solve else (SSt.init vs cs).satisfy) = (s', .ok pos ret)) :
-    IC s'.st := by
-  have h0 := init_SJ vs cs hv
+    WF s' := by
+  have h0 : SW (SSt.init vs cs) := Or.inr (init_WF vs cs hv)
   cases doSolve with
   | true =>
     simp only [if_true] at h
     have hb := (static_solve_post _ _ _ _ h).2.1
-    have := solve_SJ _ h0
+    have := solve_SW _ h0
     rw [h] at this
     rcases this with hf | hi
     · rw [(bad_false _ hb).1] at hf; exact absurd hf (by simp)
@@ -168,11 +176,31 @@ theorem static_block_inv (vs : Array (Rat × Rat × Rat)) (cs : Array Con)
   | false =>
     simp only [Bool.false_eq_true, if_false] at h
     have hb := (static_satisfy_post _ _ _ _ h).2.1
-    have := satisfy_SJ _ h0
+    have := satisfy_SW _ h0
     rw [h] at this
     rcases this with hf | hi
     · rw [(bad_false _ hb).1] at hf; exact absurd hf (by simp)
     · exact hi
+
+/-- **static_merge_applicable**: in a state satisfying `WF`, the constraint that `findMinInConstraint`
+    returns for a block `r` owning a variable enters `r` from ANOTHER block, and the one
+    `findMinOutConstraint` returns leaves `l` for another block — the lazy repair of the heaps (internal
+    constraints dropped at the root, out-of-date ones re-inserted) never hands back a constraint the merge
+    could not be applied to. -/
+theorem static_merge_applicable (s : SSt) (h : WF s) (b c : Nat) (ho : Owns s.st b) :
+    ((findMinIn s.st s.hs b).2 = some c →
+      blkOf s.st (s.st.cons[c]!).r = b ∧ blkOf s.st (s.st.cons[c]!).l ≠ b) ∧
+    ((findMinOut s.st s.hs b).2 = some c →
+      blkOf s.st (s.st.cons[c]!).l = b ∧ blkOf s.st (s.st.cons[c]!).r ≠ b) := by
+  constructor
+  · intro hc
+    have h1 := (findMinIn_ok s.st s.hs b h.hin h.hout).2.2.2.2 c hc ho
+    have h2 := internal_false s.st c (findMinIn_ext _ _ _ _ hc)
+    exact ⟨h1, fun e => h2 (e.trans h1.symm)⟩
+  · intro hc
+    have h1 := (findMinOut_ok s.st s.hs b h.hin h.hout).2.2.2.2 c hc ho
+    have h2 := internal_false s.st c (findMinOut_ext _ _ _ _ hc)
+    exact ⟨h1, fun e => h2 (h1.trans e.symm)⟩
 
 /-- **static_active_tight**: in a state satisfying the invariant every active constraint has slack exactly
     0 as the solver evaluates it, whatever the block positions. -/
